@@ -22,4 +22,17 @@ PROPS = {
             "INTEGER values reaching these functions are in -32768..32767 (C06 covers how values get there)",
         ],
     },
+    "C20": {
+        "coq_targets": ["theories/PC/Proofs.vo"],
+        "harness": ["c20"],
+        "axioms": [],
+        "trusted_base": COMMON_TB + [
+            "modelled, not verified: rusty_pc/src/{top_level,supplier,filter,filter_map,and,or,many,peek,to_option,or_default,surround,delimited,seq,and_then,and_then_err,map,map_soft_err,map_fatal_err,to_fatal,boxed,lazy,map_decorator}.rs as the deep embedding PC/Model.v (23 constructors); NOT modelled: the context-passing combinators (ctx_parser, iif_ctx, map_ctx, no_context, many_ctx, then_with_in_context, flatten), text/strings.rs (defined from read/filter/many)",
+            "the harness interprets the same pexp terms into real boxed rusty_pc parsers over a 3-letter test input; a transparent probe parser around every sub-parser records fatal errors for the implementation-side check",
+        ],
+        "assumptions": [
+            "parser expressions whose repetition element can succeed without consuming input are excluded (the implementation loops forever on them and the model answers OutOfFuel); the syntactic productivity test is in harness/src/c20.rs",
+            "model = code is checked on the generated expressions x inputs only (bounded-exhaustive for depth <= 2, sampled beyond)",
+        ],
+    },
 }
